@@ -128,6 +128,23 @@ PLANS = {
         "assumptions": COMMON_ASSUMPTIONS + ["known findings D9, D10, D19 are generated only by their labelled probe scenarios",
                                              "Miri runs with -Zmiri-disable-stacked-borrows (the tree deliberately breaks the aliasing models, DESIGN.md 2.2)"],
     },
+    "C07": lambda tier: {
+        "level": "exploration",
+        "stages": [main_stage(60, 300, tier)],
+        "require": ["scalar_values_checked", "default_rewrites_checked", "fast_vs_general_path_pairs", "tables_with_prefix_related_keys",
+                    "prolonged_rewrites_checked", "yomigana_deletions", "full_stack_normalisations_checked"],
+        "rule": "(a) every Unicode scalar value alone (1,112,064 inputs, exhaustive; split over the shards) through DefaultInputTextPlugin with "
+                "the shipped rewrite.def (thorough: also an empty and an ignore-only table) against the reference nfkc(lowercase(c)) / exempt / "
+                "table rule (title-case letters: both readings accepted); (b) seeded rewrite tables (exempt characters, multi-character keys "
+                "and values, keys that are prefixes / extensions of other keys, keys containing characters that would otherwise be lower-cased "
+                "or NFKC-normalised) x strings over the table alphabet + expanders + hostile characters, compared with the leftmost-longest "
+                "reference; relational check: the rewrite of x alone equals the rewrite of x inside a text that forces the general code path; "
+                "(c) random prolonged-sound-mark sets / replacement symbols and yomigana bracket sets / max lengths against span-level "
+                "references; (d) the whole stack through do_tokenize. distinct_nontrivial = distinct (table/settings,text) that were actually "
+                "rewritten and matched the reference",
+        "assumptions": COMMON_ASSUMPTIONS + ["NFKC and case tables of unicode-normalization / std are the trusted base",
+                                             "character classes for the yomigana reference come from CharacterCategory (checked by C17)"],
+    },
 }
 
 
